@@ -165,7 +165,7 @@ def run(ctx):
     project = signac.init_project(root)
     # ---- spec -> code ------------------------------------------------------------------------
     out = os.path.join(ctx.work, "cases.ndjson")
-    consts = {"MODE": '"universe"', "WIDTH": 1 if ctx.quick else 2, "TOPWIDTH": 3 if ctx.quick else 4, "NSAMPLE": 100 if ctx.quick else 1500}
+    consts = {"MODE": '"universe"', "WIDTH": 1 if ctx.quick else 2, "TOPWIDTH": 3 if ctx.quick else 4, "NSAMPLE": 100 if ctx.quick else 500}
     cfgt = tlc.cfg(consts, invariants=["AsciiOnly", "KeysSorted"], postcondition="Export")
     r = tlc.run("jobid/JobId.tla", cfg_text=cfgt, workdir=ctx.work, seed=ctx.seed % 10**6, env={"CASES_OUT": out}, coverage=False, allow_violation=False)
     ctx.add_tlc("JobId universe", r)
